@@ -83,33 +83,32 @@ def intervals(hist):
     return out
 
 
-def shape(hist):
-    """how the judged call (last event of hist) relates to the other calls of its behaviour: the suffix of the key"""
-    ev = hist[-1]
-    if ev["a"] != "CallE":
-        # one caller here; but earlier calls of the behaviour may have overlapped each other
-        ivs = intervals(hist[:-1])
-    else:
-        ivs = intervals(hist)
-    mine = ivs[-1] if ev["a"] == "CallE" else [len(hist) - 1, len(hist) - 1, 0, set()]
-    if ev["a"] == "CallE":
-        mine = [iv for iv in ivs if iv[1] == len(hist) - 1 and iv[2] == ev["c"]][0]
-    others = [iv for iv in ivs if iv is not mine]
+def overlap(a, b):
+    return a[0] <= b[1] and b[0] <= a[1]
 
-    def overlap(a, b):
-        return a[0] <= b[1] and b[0] <= a[1]
+
+def stores_in(hist, iv):
+    return any(e["a"] in ("Set", "SetB", "SetE") for e in hist[iv[0]:iv[1]])
+
+
+def shape(hist):
+    """how the judged call (last event of hist) lies among the other calls of its behaviour:
+    (tags for the key, its interval, the other calls' intervals)"""
+    ivs = intervals(hist)
+    mine = [iv for iv in ivs if iv[1] == len(hist) - 1][0]
+    others = [iv for iv in ivs if iv is not mine]
     tags = []
     if any(overlap(mine, o) for o in others):
         tags.append("call-overlaps-another-call")
-    if any(e["a"] in ("Set", "SetB", "SetE") for e in hist[mine[0]:mine[1]]):
+    if stores_in(hist, mine):
         tags.append("store-during-call")
-    return tags, mine, others, overlap
+    return tags, mine, others
 
 
 def classify_r6(hist):
     """an entry that the filter of a call rejected which had returned before this call started"""
     ev = hist[-1]
-    tags, mine, others, overlap = shape(hist)
+    tags, mine, others = shape(hist)
     ret = {opid(o) for o in ev["ret"]}
     before = [o for o in others if o[1] < mine[0]]
     culprits = [o for o in before if o[3] & ret]
@@ -120,7 +119,7 @@ def classify_r6(hist):
             why.append("rejecting-call-overlapped-a-call-that-rejected-a-common-operation")
         elif ov:
             why.append("rejecting-call-overlapped-another-call")
-        elif any(e["a"] in ("Set", "SetB", "SetE") for e in hist[cu[0]:cu[1]]):
+        elif stores_in(hist, cu):
             why.append("store-during-rejecting-call")
     for w in ("rejecting-call-overlapped-a-call-that-rejected-a-common-operation", "rejecting-call-overlapped-another-call",
               "store-during-rejecting-call"):
@@ -133,12 +132,19 @@ def classify(cls, hist):
     ev = hist[-1]
     if cls == "R6-filtered-out-again":
         return classify_r6(hist)
-    if ev["a"] == "CallE" and cls not in ("R0-returns",):
-        return ";".join([cls] + shape(hist)[0])
+    if ev["a"] == "CallE":
+        # the call's CallB event holds the index the pool showed when the call started
+        mine = shape(hist)[1]
+        ev = dict(ev, index=hist[mine[0]].get("index", []))
+        return ";".join([classify1(cls, hist, ev)] + shape(hist)[0])
+    return classify1(cls, hist, ev)
+
+
+def classify1(cls, hist, ev):
     if cls in ("R0-returns", "R0-set-returns"):
         msg = ev.get("msg", "")
         m = re.search(r"index out of range \[(\d+)\] with length (\d+)", msg)
-        if ev.get("panic") and m and m.group(1) == m.group(2) and ev["a"] == "Call" and int(m.group(2)) == ev["l"]:
+        if ev.get("panic") and m and m.group(1) == m.group(2) and ev["a"] in ("Call", "CallE") and int(m.group(2)) == ev["l"]:
             return "reject-count>limit;panic"
         return ("panic(%s)" if ev.get("panic") else "error(%s)") % msg[:80]
     if cls == "R2-facts-distinct":
@@ -174,55 +180,139 @@ def classify(cls, hist):
     return cls
 
 
+def brief_of(hist):
+    out = []
+    for e in hist:
+        if e["a"] in ("Set", "SetB", "SetE"):
+            out.append([e["a"], opid(e["op"])])
+        elif e["a"] == "CallB":
+            out.append(["CallB", e["c"], {"l": e["l"], "rej": [opid(o) for o in e["rej"]]}])
+        elif e["a"] in ("Call", "CallE"):
+            d = {"ret": [opid(o) for o in e["ret"]], "rejected": [opid(o) for o in e["rejected"]]}
+            if e["a"] == "Call":
+                d.update({"l": e["l"], "rej": [opid(o) for o in e["rej"]]})
+            if e.get("panic"):
+                d["panic"] = True
+            out.append([e["a"], d] if e["a"] == "Call" else [e["a"], e["c"], d])
+        else:
+            out.append([e["a"]])
+    return out
+
+
 def run(ctx):
     quick = ctx.tier == "quick"
-    # 1. the model: transcription of the repaired loop satisfies R0..R6 (exhaustive)
-    ctx.tlc("PoolOps", "PoolOps_mc_quick.cfg" if quick else "PoolOps_mc_thorough.cfg", timeout=2400)
-    ctx.exhaustive = True
-    # 2. candidates: counterexamples of the pinned-tree transcription
-    hists = []
-    tags = []
-    cands = {}
-    for inv in ("r0", "r2", "r4"):
-        rp = ctx.tlc("PoolOps", "PoolOps_pinned_%s.cfg" % inv, allow_violation=True, count=False, timeout=900)
+    t0 = time.time()
+
+    # ---------------------------------------------------------------- TLC: model runs and inputs, side by side
+    def mc(c, cfg):
+        return c.tlc("PoolOps", cfg, timeout=3000)
+
+    def cand(c, cfg):
+        rp = c.tlc("PoolOps", cfg, allow_violation=True, count=False, timeout=900)
+        hist = None
         if rp.safety_violation:
-            p = os.path.join(ctx.work, "cex_%s.txt" % inv)
+            p = os.path.join(c.work, "cex.txt")
             open(p, "w").write(rp.out)
             st = list(core._parse_steps(p, "step"))
             if st:
-                cands[len(hists)] = {"config": "PoolOps_pinned_%s.cfg" % inv, "invariant": rp.violated, "inputs": inputs_of(st[-1])}
-                hists.append(st[-1])
-                tags.append("candidate")
-    # 3. every input sequence of the small instance
-    _, steps = ctx.tlc_dump_steps("PoolOps", "PoolOps_enum_quick.cfg" if quick else "PoolOps_enum_thorough.cfg", timeout=2400)
-    mx = maximal(steps)
+                hist = st[-1]
+        return (cfg, rp.violated, hist)
+
+    def dump(c, cfg):
+        _, steps = c.tlc_dump_steps("PoolOps", cfg, timeout=3000)
+        return maximal(steps)
+
+    def walk(c, cfg, num, depth):
+        _, behs = c.tlc_simulate("PoolOps", cfg, num=num, depth=depth, timeout=1800)
+        return [b[-1] for b in behs]
+
+    t = "quick" if quick else "thorough"
+    jobs = [
+        # 1. the model: the transcription of the repaired loop satisfies R0..R6 (exhaustive), one caller and
+        #    overlapping calls (Begin / End steps of several callers, stores in between)
+        (mc, ("PoolOps_mc_%s.cfg" % t,)),
+        (mc, ("PoolOps_conc_mc_%s.cfg" % t,)),
+        # 2. candidates: counterexamples of the pinned-tree transcription and of a removal step that gives up
+        #    when a record of its list is already gone
+        (cand, ("PoolOps_pinned_r0.cfg",)), (cand, ("PoolOps_pinned_r2.cfg",)), (cand, ("PoolOps_pinned_r4.cfg",)),
+        (cand, ("PoolOps_conc_abort.cfg",)),
+        # 3. every input sequence of the small instances
+        (dump, ("PoolOps_enum_%s.cfg" % t,)),
+        (dump, ("PoolOps_conc_enum_%s.cfg" % t,)),
+        # 4. seeded random walks of the larger instances (the concurrent one: complete walks, depth > longest)
+        (walk, ("PoolOps_sim.cfg", 300 if quick else 3000, 16)),
+        (walk, ("PoolOps_conc_sim.cfg", 300 if quick else 3000, 40)),
+    ]
+    subs = [subctx(ctx, k) for k in range(len(jobs))]
+    with concurrent.futures.ThreadPoolExecutor(max_workers=5 if quick else 3) as ex:
+        futs = [ex.submit(f, c, *args) for (f, args), c in zip(jobs, subs)]
+        done = [f.result() for f in futs]      # a MachineryError of a run is raised here
+    for c in subs:
+        ctx.states += c.states
+        ctx.transitions += c.transitions
+        ctx.tlc_cmds += c.tlc_cmds
+    ctx.exhaustive = True
+    cres, (mx, cmx, sim, csim) = done[2:6], done[6:10]
+    abort = cres[3]
+    if abort[1] != "R6ok" or abort[2] is None:
+        raise core.MachineryError("R6ok is not violated when the removal step gives up on a record that is already gone "
+                                  "(PoolOps_conc_abort.cfg): the model lost its sensitivity")
+    ctx.extra["model_candidate_removal_gives_up"] = "R6ok violated (as it must be)"
+    phase = {"tlc": round(time.time() - t0, 1)}
+    t0 = time.time()
+
+    behs, tags, cands = [], [], {}
+
+    def add(hist, tag, **kw):
+        b = {"i": len(behs), "steps": inputs_of(hist) + [OBSERVER]}
+        b.update(kw)
+        behs.append(b)
+        tags.append(tag)
+        return b["i"]
+
+    for (cfg, violated, hist) in cres:
+        if hist is not None:
+            cands[add(hist, "candidate")] = {"config": cfg, "invariant": violated, "inputs": inputs_of(hist)}
     for h in mx:
-        hists.append(h)
-        tags.append("enum")
-    # 4. seeded random walks of the larger instance
-    _, behs = ctx.tlc_simulate("PoolOps", "PoolOps_sim.cfg", num=300 if quick else 3000, depth=16)
-    for b in behs:
-        hists.append(b[-1])
-        tags.append("sim")
-    ctx.rule = ("input sequences of SetOperation(fact re-signed by several signers) / OperationHashes(limit, filter): every maximal "
-                "sequence of the small PoolOps instance (%d), seeded -simulate walks (%d), TLC counterexamples of the pinned "
-                "transcription (%d); non-trivial = at least one call after at least one store; distinct by input sequence"
-                % (len(mx), len(behs), len(cands)))
+        add(h, "enum")
+    for k, h in enumerate(cmx):
+        add(h, "forced-enum") if quick or (k + ctx.seed) % 2 == 0 else add(h, "forced-enum", park="last")
+    for h in sim:
+        add(h, "sim")
+    for k, h in enumerate(csim):
+        add(h, "forced-sim") if (k + ctx.seed) % 2 == 0 else add(h, "forced-sim", park="last")
+    nfree = 0
+    for k, h in enumerate(csim + (cmx[::7] if quick else cmx[::3])):
+        add(h, "free", mode="free")
+        nfree += 1
+    ctx.rule = ("input sequences of SetOperation(fact re-signed by several signers) / OperationHashes(limit, filter), each followed by one "
+                "unfiltered call: one caller - every maximal sequence of the small PoolOps instance (%d), seeded -simulate walks (%d); "
+                "overlapping calls of 2-3 callers as forced Begin/End schedules - every maximal sequence of the small concurrent instance (%d), "
+                "seeded complete walks of the larger one (%d); the same walks unforced (%d); TLC counterexamples of the candidate "
+                "transcriptions (%d); non-trivial = at least one call after at least one store; distinct by input sequence, park position and mode"
+                % (len(mx), len(sim), len(cmx), len(csim), nfree, len(cands)))
     inp = os.path.join(ctx.work, "behs.ndjson")
-    core.write_ndjson(inp, [{"i": i, "steps": inputs_of(h)} for i, h in enumerate(hists)])
+    core.write_ndjson(inp, behs)
     trace = os.path.join(ctx.work, "trace.ndjson")
-    ctx.vh(["C22", "run", "--in", inp, "--out", trace], timeout=2400)
+    ctx.vh(["C22", "run", "--in", inp, "--out", trace], timeout=3000)
     events = core.read_ndjson(trace)
+    phase["harness"] = round(time.time() - t0, 1)
+    t0 = time.time()
     nreset = sum(1 for e in events if e["a"] == "Reset")
-    if nreset != len(hists):
-        raise core.MachineryError("harness ran %d of %d behaviours" % (nreset, len(hists)))
-    for h in hists:
-        ins = inputs_of(h)
-        ctx.case(ins, nontrivial=any(s["a"] == "Call" for s in ins) and ins[0]["a"] == "Set" if ins else False,
-                 sample=[[s["a"], s.get("op") or [s.get("l"), s.get("rej")]] for s in ins])
-    ctx.traces += len(hists)
-    # validate in chunks (cut at Reset events)
-    chunk = 25000
+    if nreset != len(behs):
+        raise core.MachineryError("harness ran %d of %d behaviours" % (nreset, len(behs)))
+    hangs = [e for e in events if e["a"] == "Hang"]
+    if hangs:
+        raise core.MachineryError("%d forced calls neither parked nor returned (first: %s)" % (len(hangs), hangs[0]))
+    for b in behs:
+        ins = b["steps"][:-1]
+        ctx.case([ins, b.get("park"), b.get("mode")],
+                 nontrivial=any(s["a"] in ("Call", "Begin") for s in ins) and ins[0]["a"] == "Set" if ins else False,
+                 sample=[[s["a"], s.get("op") or ([s.get("c")] if s.get("c") else []) + ([s["l"], s.get("rej")] if "l" in s else [])]
+                         for s in ins])
+    ctx.traces += len(behs)
+    # validate in chunks (cut at Reset events), side by side
+    chunk = 20000
     parts, cur = [], []
     for e in events:
         if e["a"] == "Reset" and len(cur) >= chunk:
@@ -231,14 +321,27 @@ def run(ctx):
         cur.append(e)
     if cur:
         parts.append(cur)
-    calls = sum(1 for e in events if e["a"] == "Call")
+
+    def validate(c, k):
+        tp = os.path.join(c.work, "trace_part%d.ndjson" % k)
+        # fields the trace spec does not read are dropped to keep the lines small
+        drop = ("index", "examined", "msg", "i", "park", "unparked")
+        core.write_ndjson(tp, [{kk: v for kk, v in e.items() if kk not in drop} for e in parts[k]])
+        return c.tlc_validate_trace("PoolOpsTrace", "PoolOpsTrace.cfg", tp, timeout=3000)
+
+    vsubs = [subctx(ctx, "v%d" % k) for k in range(len(parts))]
+    with concurrent.futures.ThreadPoolExecutor(max_workers=4) as ex:
+        vres = list(ex.map(validate, vsubs, range(len(parts))))
+    for c in vsubs:
+        ctx.states += c.states
+        ctx.transitions += c.transitions
+        ctx.tlc_cmds += c.tlc_cmds
+    calls = sum(1 for e in events if e["a"] in ("Call", "CallE"))
+    overlapped = 0
     r7 = 0
     reproduced = set()
     for k, part in enumerate(parts):
-        tp = os.path.join(ctx.work, "trace_part%d.ndjson" % k)
-        # fields the trace spec does not read are dropped to keep the lines small
-        core.write_ndjson(tp, [{kk: v for kk, v in e.items() if kk not in ("index", "examined", "msg", "i")} for e in part])
-        ok, res, hw = ctx.tlc_validate_trace("PoolOpsTrace", "PoolOpsTrace.cfg", tp, timeout=2400)
+        ok, res, hw = vres[k]
         if not ok:
             ev = part[hw - 1] if hw and hw <= len(part) else None
             ctx.violation("trace-rejected", "event %s not explained by PoolOps.tla: %s" % (hw, ev),
@@ -263,7 +366,7 @@ def run(ctx):
                     r7 += 1
                     continue
                 key = classify(cls, hist)
-                if cls == "R4-most-recent" and "stale-fact-index" in keys:
+                if cls == "R4-most-recent" and any(kk.startswith("stale-fact-index") for kk in keys):
                     continue   # the duplicate entry of the same call: one defect, reported once
                 if key not in keys:
                     keys.append(key)
@@ -274,23 +377,43 @@ def run(ctx):
                     continue
                 seen.add((key, line))
                 ev = hist[-1]
-                brief = [[e["a"], opid(e["op"]) if e["a"] == "Set" else
-                          {"l": e["l"], "rej": [opid(o) for o in e["rej"]], "ret": [opid(o) for o in e["ret"]],
-                           "panic": e.get("panic", False)}] for e in hist]
-                what = "%s: %s" % ("/".join(c for c in classes if not c.startswith("R7")), json.dumps(brief[-7:]))
+                what = "%s: %s" % ("/".join(c for c in classes if not c.startswith("R7")), json.dumps(brief_of(hist)[-9:]))
                 if ev.get("msg"):
                     what += " " + ev["msg"][:120]
-                ctx.violation(key, what, {"classes": classes, "history": hist, "behaviour": bi, "source": tags[bi] if bi is not None else None})
+                ctx.violation(key, what, {"classes": classes, "history": hist, "behaviour": bi,
+                                          "source": tags[bi] if bi is not None else None,
+                                          "input": behs[bi] if bi is not None else None})
+    # how much the recorded calls really overlapped
+    j = 0
+    while j < len(events):
+        k = j + 1
+        while k < len(events) and events[k]["a"] != "Reset":
+            k += 1
+        ivs = intervals(events[j + 1:k])
+        overlapped += sum(1 for a in ivs if any(a is not b and overlap(a, b) for b in ivs))
+        j = k
     mo = [c for i, c in cands.items() if i not in reproduced]
     if mo:
         for c in mo:
-            c["note"] = "transcription of the pinned-tree loop; the real pool's answers to these inputs satisfy R0..R6"
+            c["note"] = ("candidate transcription (pinned-tree loop / removal step that gives up on a gone record); "
+                         "the real pool's answers to these inputs satisfy R0..R6")
         ctx.extra["model_only_counterexamples"] = mo
-    ctx.extra["candidates_from_pinned_transcription"] = len(cands)
+    phase["validate"] = round(time.time() - t0, 1)
+    ctx.extra["phase_s"] = phase
+    ctx.extra["candidates_from_candidate_transcriptions"] = len(cands)
     ctx.extra["real_calls_OperationHashes"] = calls
+    ctx.extra["real_calls_that_overlapped_another_call"] = overlapped
+    ctx.extra["forced_schedules"] = sum(1 for t_ in tags if t_.startswith("forced"))
+    ctx.extra["unforced_races"] = nfree
     ctx.extra["events"] = len(events)
     ctx.extra["stronger_reading_R7_eligible_fact_missing"] = r7
     ctx.assumptions = ["filters are functions of the operation (sets of rejected operations); the rejections the filter really made are logged",
-                       "insertion order = order of SetOperation calls (the ordered key is the insertion time in ns; the driver lets 2us pass between stores)",
+                       "insertion order = order of SetOperation calls (the ordered key is the insertion time in ns; the driver lets 2us pass between stores; "
+                       "stores are made by one goroutine at a time)",
+                       "overlapping calls are judged by facts that need no linearization order: R1, R2, R3 per call; R6 against the calls that had returned "
+                       "when the call started; R4 against the operations stored before the call started that neither a call that returned before nor an "
+                       "overlapping call's filter may have rejected",
+                       "a forced call is parked in ONE filter callback (first or last record of its snapshot): the scan reads a leveldb snapshot, so the "
+                       "position of the park inside the scan changes nothing; the removal step (reads + one batch) is not split",
                        "R7 (with room left every eligible fact is handed out) is the stronger reading: counted, never an alarm",
-                       "clean-up passes and corrupt records are not explored"]
+                       "concurrent SetOperation of the SAME operation, clean-up passes and corrupt records are not explored"]
